@@ -1060,3 +1060,81 @@ func helperResult(c *ssa.Call, idx int) ssa.Value {
 	}
 	return res
 }
+
+// c18ByNameLookups: the reflective accessors of CmdType/FilterType find "the field of function F" through the fct
+// tags. A look-up by Go field *name* computed from the function (FieldByName(upperFirst(F))) is only equivalent if
+// every tagged field is named after its function — an exhaustive table condition that is checked whenever such a
+// look-up exists (it does not hold for every field of the data model: field names follow the XSD element names,
+// function constants have their own spelling).
+func c18ByNameLookups(p *Prog, t *Tables, r *Report) {
+	r.Rule("T6", "wherever a reflective accessor of CmdType/FilterType looks a field up by a name computed from the function (not by a name read from the struct's own field list), every fct-tagged field is named exactly like its function with the first letter upper-cased")
+	n := 0
+	for _, fn := range p.RepoFns("model") {
+		if fn.Signature.Recv() == nil || fn.Blocks == nil {
+			continue
+		}
+		owner := ""
+		switch {
+		case isNamed(fn.Signature.Recv().Type(), "model", "CmdType"):
+			owner = "CmdType"
+		case isNamed(fn.Signature.Recv().Type(), "model", "FilterType"):
+			owner = "FilterType"
+		default:
+			continue
+		}
+		forEachCall(fn, func(site ssa.CallInstruction) {
+			c := site.Common()
+			callee := c.StaticCallee()
+			isByName := callee != nil && fnPkgPath(callee) == "reflect" && callee.Name() == "FieldByName"
+			if c.IsInvoke() && c.Method.Name() == "FieldByName" && c.Method.Pkg() != nil && c.Method.Pkg().Path() == "reflect" {
+				isByName = true // reflect.Type is an interface
+			}
+			if c.IsInvoke() && c.Method.Name() == "FieldByName" && isNamed(c.Value.Type(), "reflect", "Type") {
+				isByName = true
+			}
+			if !isByName {
+				return
+			}
+			args := callArgs(c)
+			if len(args) != 1 {
+				return
+			}
+			n++
+			// the name is read from a reflect.StructField of the struct itself: fine
+			fromFieldList := false
+			for _, s := range p.SourcesOpt(args[0], false, nil, true) {
+				if strings.Contains(s.Desc, "StructField") || strings.HasSuffix(Path(s.Val), ".Name") {
+					fromFieldList = true
+				}
+			}
+			if pth := Path(args[0]); strings.HasSuffix(pth, ".Name") {
+				fromFieldList = true
+			}
+			key := fmt.Sprintf("model.%s.%s|FieldByName", owner, originName(fn))
+			if fromFieldList {
+				r.Pass("T6", key, p.InstrPos(site), "the name comes from the struct's own field list ("+Path(args[0])+")")
+				return
+			}
+			fields := t.CmdFields
+			if owner == "FilterType" {
+				fields = t.FilterFields
+			}
+			var bad []string
+			for _, f := range fields {
+				fct := f.Tags["fct"]
+				if fct == "" {
+					continue
+				}
+				want := strings.ToUpper(fct[:1]) + fct[1:]
+				if owner == "FilterType" {
+					continue // filter fields carry a Selectors/Elements suffix: a by-name look-up cannot be exact there
+				}
+				if f.Var.Name() != want {
+					bad = append(bad, fmt.Sprintf("%s (function %s)", f.Var.Name(), fct))
+				}
+			}
+			r.Check("T6", key, len(bad) == 0 && owner == "CmdType", p.InstrPos(site), fmt.Sprintf("the field is looked up by a name computed from %s; fields not named after their function: %v — commands for these functions are built without payload", Path(args[0]), bad))
+		})
+	}
+	r.Stat("T6.reflective look-ups by field name", n)
+}
